@@ -71,6 +71,8 @@ def gen_case(rng, nmax, tight=None):
         cb = [rng.randint(0, 3) for _ in range(p)]
     pb = [rng.randint(0, 2)] * p if rng.random() < 0.5 else [rng.randint(0, 2) for _ in range(p)]
     Pt = [T[t][t + 1] for t in range(n)] if rng.random() < 0.6 else [[rng.randint(0, 9) for _ in range(p)] for _ in range(n)]
+    if rng.random() < 0.3:  # half-integer penalties (exact in floating point): integer-typed savings must not make the results integral
+        ca, pa, cb, pb = ca / 2, pa / 2, [v / 2 for v in cb], [v / 2 for v in pb]
     return {"n": n, "p": p, "m": m, "M": M, "ca": ca, "cb": cb, "pa": pa, "pb": pb, "T": T, "P": Pt,
             "ignore": rng.random() < 0.15}
 
